@@ -766,6 +766,9 @@ func Run(t *tr.W, thorough bool) {
 	}
 	for i := 0; i < n; i++ {
 		steps := 8 + rng.Intn(40)
-		runCase(t, rng, steps, i%(n/(3*mid)+1) == 0)
+		// one PRNG per case, so a case discarded for timing skew does not
+		// shift the cases after it
+		crng := rand.New(rand.NewSource(rng.Int63()))
+		runCase(t, crng, steps, i%(n/(3*mid)+1) == 0)
 	}
 }
